@@ -183,4 +183,72 @@ theorem fstring_collapse_fixed_witness :
     partText "\\u{7d}\\x7d}}".toList = some "}}}".toList := by
   constructor <;> simp [partText, partTextGo, unescape, hexVal, unicodeRest, isScalar]
 
+/-- T3c, general form (`unescape (escape s) = s`). For EVERY sequence of plain
+    characters (any Unicode character except `\`, `"`, CR, and — for the
+    f-string pass — braces) and escape sequences that are `EscOK` (see
+    `documented_escapes_ok`), `unescape` of the spelling is the sequence of
+    denoted characters. -/
+theorem unescape_escape (items : List Item) (hok : ∀ it ∈ items, it.ok)
+    (hnb : ∀ it ∈ items, it.isBrace = false) :
+    unescape (spell items) = some (meaning items) :=
+  unescape_pre items hok hnb
+
+/-- the documented escapes satisfy the hypothesis of `unescape_escape` /
+    `fstring_text_correct`: the seven simple escapes and every `\xHH` below 0x80 -/
+theorem documented_escapes_ok :
+    (Item.esc ['\\', '0'] (Char.ofNat 0)).ok ∧ (Item.esc ['\\', 't'] '\t').ok ∧
+    (Item.esc ['\\', 'n'] '\n').ok ∧ (Item.esc ['\\', 'r'] '\r').ok ∧
+    (Item.esc ['\\', '"'] '"').ok ∧ (Item.esc ['\\', '\''] '\'').ok ∧
+    (Item.esc ['\\', '\\'] '\\').ok ∧
+    (∀ (h l : Char) (a b : Nat), hexVal h = some a → hexVal l = some b → a * 16 + b < 128 →
+      (Item.esc ['\\', 'x', h, l] (Char.ofNat (a * 16 + b))).ok) := by
+  have shape : ∀ k : Char, k ≠ 'u' → ∃ k' tail, ['\\', k] = '\\' :: k' :: tail ∧ k' ≠ 'u' ∧ ∀ d ∈ tail, copied d = true :=
+    fun k hk => ⟨k, [], rfl, hk, by simp⟩
+  refine ⟨⟨fun r => (simple_escapes r).1, shape _ (by decide)⟩,
+    ⟨fun r => (simple_escapes r).2.1, shape _ (by decide)⟩,
+    ⟨fun r => (simple_escapes r).2.2.1, shape _ (by decide)⟩,
+    ⟨fun r => (simple_escapes r).2.2.2.1, shape _ (by decide)⟩,
+    ⟨fun r => (simple_escapes r).2.2.2.2.1, shape _ (by decide)⟩,
+    ⟨fun r => (simple_escapes r).2.2.2.2.2.1, shape _ (by decide)⟩,
+    ⟨fun r => (simple_escapes r).2.2.2.2.2.2, shape _ (by decide)⟩, ?_⟩
+  intro h l a b ha hb hlt
+  refine ⟨fun r => (hex_escape_and_continuation h l a b r ha hb hlt).1,
+    'x', [h, l], rfl, by decide, ?_⟩
+  intro d hd
+  simp only [List.mem_cons, List.not_mem_nil, or_false] at hd
+  rcases hd with rfl | rfl
+  · exact copied_of_hex _ _ ha
+  · exact copied_of_hex _ _ hb
+
+/-- T3d (`{{` / `}}`, after the fix). For EVERY f-string text built from plain
+    characters (arbitrary Unicode), `EscOK` escape sequences (including escaped
+    braces such as `\x7b`), `{{` and `}}`, the model of
+    `unescape_f_string_part` returns the documented text: each escape its
+    character, each doubled brace one brace, nothing else changed.
+    (Escapes of the form `\u{…}` are outside this statement: `fstring_collapse_fixed_witness`
+    and the correspondence run cover them.) -/
+theorem fstring_text_correct (items : List Item) (hok : ∀ it ∈ items, it.ok) :
+    partText (spell items) = some (meaning items) := by
+  have := partText_items items [] hok (by simp) (by simp)
+  simpa [partText, spell, meaning] using this
+
+/-- non-vacuity: `é\x7b\x7b{{\t}}` is such a text; it means `é{{{<TAB>}` -/
+example : partText "é\\x7b\\x7b{{\\t}}".toList = some "é{{{\t}".toList := by
+  have hx := documented_escapes_ok.2.2.2.2.2.2.2 '7' 'b' 7 11 (by decide) (by decide) (by decide)
+  have ht := documented_escapes_ok.2.1
+  have := fstring_text_correct
+    [.plain 'é', .esc ['\\', 'x', '7', 'b'] (Char.ofNat (7 * 16 + 11)),
+     .esc ['\\', 'x', '7', 'b'] (Char.ofNat (7 * 16 + 11)), .lbrace, .esc ['\\', 't'] '\t', .rbrace]
+    (by
+      intro it hit
+      simp only [List.mem_cons, List.not_mem_nil, or_false] at hit
+      rcases hit with rfl | rfl | rfl | rfl | rfl | rfl
+      · exact ⟨by decide, by decide, by decide⟩
+      · exact hx
+      · exact hx
+      · trivial
+      · exact ht
+      · trivial)
+  simpa [spell, meaning, Item.spelling, Item.value] using this
+
 end RotoV.C09
